@@ -74,6 +74,8 @@ func c18Check(cfg RouterCfg, hist []Op, r *Router, t *ref.Table, c *explore.Chil
 				rep("C18.ordinary-method", "trace-wrong-route", q.String(), o.Summary(), e.String())
 			} else if h := rt.Methods["TRACE"]; h != "" && o.CoreID != h {
 				rep("C18.ordinary-method", "registered-trace-not-served", q.String(), o.Summary(), "handler "+h)
+			} else if got := strings.Join(o.Trail, ","); h != "" && got != trail {
+				rep("C18.ordinary-method", "registered-trace-middlewares", q.String(), "trail "+got, "as any other registered method, the Use middlewares: "+trail)
 			} else if h == "" && o.Kind != "405" {
 				rep("C18.ordinary-method", "trace-answered-without-option", q.String(), o.Summary(), "405")
 			}
@@ -105,6 +107,13 @@ func c18Check(cfg RouterCfg, hist []Op, r *Router, t *ref.Table, c *explore.Chil
 		star := ref.ParseAllow(o.Header.Get("Allow"))
 		if cfg.Trace && !contains(star, "TRACE") {
 			rep("C18.allow", "trace-missing-from-allow:star", "OPTIONS * Allow header", o.Header.Get("Allow"), "TRACE listed")
+		}
+		if !cfg.Trace {
+			// without the option TRACE is an ordinary method: listed server-wide exactly while some live route has it
+			want := contains(t.StarAllow(), "TRACE")
+			if got := contains(star, "TRACE"); got != want {
+				rep("C18.allow", "ordinary-trace-star-allow", "OPTIONS * Allow header", o.Header.Get("Allow"), fmt.Sprintf("TRACE listed: %v", want))
+			}
 		}
 	}
 	// manual registration
